@@ -56,6 +56,7 @@ def tasks(tier):
     for K in (1, 2, 3):
         ts.append(Task('props.wire:run', name='C02/wire.const-dispatch.%d' % K, fname='c02_const_dispatch', kwargs=dict(K=K), timeout=600))
     ts.append(Task('props.wire:run', name='C02/wire.const-1d-two-steps.4', fname='c02_const_1d_two_steps', kwargs=dict(n=4), timeout=600))
+    ts.append(Task('props.wire:run', name='C02/wire.const-1d.4.late-start', fname='c02_const_1d', kwargs=dict(n=4, late_start=True), timeout=600))
     for K in (2, 3):
         ts.append(Task('props.wire:run', name='C02/wire.const-%dd-two-steps' % K, fname='c02_const_kd_two_steps', kwargs=dict(K=K), timeout=600))
     for n in (4, 5):
